@@ -121,11 +121,18 @@ def r_rescan(ctx, P):
         if panics.skip_body(p, r):
             continue
         b = ctx.wrap(r)
-        pushes = b.calls(r'Vec::<T, A>::(push|extend_from_slice|insert)$|VecDeque::<T, A>::push_back$|BTreeMap::<.*>::insert$|HashMap::<.*>::insert$')
+        pushes = b.calls(r'Vec::<T, A>::(push|extend_from_slice|insert)$|VecDeque::<T, A>::push_back$|BTreeMap::<.*>::insert$|HashMap::<.*>::insert$|string::String::(push_str|push)$')
+        # a line / delimiter read appends to the buffer it is given (second / third argument)
+        for i, t in b.calls(r'io::BufRead::(read_line|read_until)$|io::Read::read_to_string$'):
+            k = 2 if t['f']['fn'].endswith('read_until') else 1
+            if len(t['args']) > k:
+                pushes.append((i, dict(t, args=[t['args'][k]])))
         if not pushes:
             ctx.functions.discard(p)
             continue
-        its = b.calls(r'IntoIterator::into_iter$|\]>::(iter|contains|iter_mut|to_vec|concat)$|Vec::<T, A>::iter$|Clone::clone$')
+        # whole-container walks; searches of a string for a pattern walk all of it on a miss (`starts_with` / `ends_with` do not)
+        its = b.calls(r'IntoIterator::into_iter$|\]>::(iter|contains|iter_mut|to_vec|concat)$|Vec::<T, A>::iter$|Clone::clone$'
+                      r'|^str::(rfind|find|contains|matches|rmatches|match_indices|split|rsplit|lines|chars|char_indices|bytes|trim\w*|to_owned|to_string|replace\w*)$|memchr::\w+$')
         edges = {i: set(j for j, _ in b.succ(i)) for i in range(len(b.blocks)) if not b.blocks[i]['c']}
         comps = [set(c) for c in callgraph.sccs(edges) if len(c) > 1]
         if not comps:
